@@ -1,6 +1,7 @@
 import PepitVerif.Math.AddPointSpec
 import PepitVerif.Math.OracleInv
 import PepitVerif.Math.OracleFresh
+import PepitVerif.Math.OneValue
 
 /-!
 # Property C07: oracle bookkeeping is coherent for leaf and composite functions
@@ -127,34 +128,57 @@ theorem oracleA_len (w : AW) (f : Nat) (x : PDict) : (oracleA w f x).1.funs.leng
 /-- run a sequence of calls -/
 def run (w : AW) (calls : List Call) : AW := calls.foldl step w
 
-/-- one call preserves the invariant and the freshness bound -/
-theorem step_inv (w : AW) (c : Call) (hi : OInv w) (hb : Bounded w) (hc : Call.valid w c) :
-    OInv (step w c) ∧ Bounded (step w c) := by
+/-- the full invariant of the oracle layer -/
+def Inv (w : AW) : Prop := OInv w ∧ Bounded w ∧ OneValue w ∧ OneGrad w
+
+/-- one call preserves the invariant -/
+theorem step_inv (w : AW) (c : Call) (h : Inv w) (hc : Call.valid w c) : Inv (step w c) := by
+  obtain ⟨hi, hb, hv, hg⟩ := h
   cases c with
-  | oracle f x => exact ⟨oracleA_inv w f x hc.1 hc.2.1 hi, (bounded_oracleA w f x hb hc.2.2).1⟩
-  | value f x => exact ⟨valueA_inv w f x hc.1 hc.2.1 hi, (bounded_valueA w f x hb hc.2.2).1⟩
+  | oracle f x =>
+    obtain ⟨h1, h2⟩ := oracleA_one w f x hc.1 hc.2.1 hi hv hg
+    exact ⟨oracleA_inv w f x hc.1 hc.2.1 hi, (bounded_oracleA w f x hb hc.2.2).1, h1, h2⟩
+  | value f x =>
+    obtain ⟨h1, h2⟩ := valueA_one w f x hc.1 hc.2.1 hi hv hg
+    exact ⟨valueA_inv w f x hc.1 hc.2.1 hi, (bounded_valueA w f x hb hc.2.2).1, h1, h2⟩
   | stationary f =>
     obtain ⟨h1, h2, _⟩ := stationaryPointA_inv w f hi hb hc.1 hc.2
-    exact ⟨h1, h2⟩
+    obtain ⟨h3, h4⟩ := stationaryPointA_one w f hi hb hc.1 hc.2 hv hg
+    exact ⟨h1, h2, h3, h4⟩
   | fixed f =>
     obtain ⟨h1, h2, _⟩ := fixedPointA_inv w f hi hb hc.1 hc.2
-    exact ⟨h1, h2⟩
+    obtain ⟨h3, h4⟩ := fixedPointA_one w f hi hb hc.1 hc.2 hv hg
+    exact ⟨h1, h2, h3, h4⟩
 
 /-- **for every world of declared functions in which the invariant holds (in particular every world in
 which nothing has been evaluated yet) and every finite sequence of oracle / gradient / value /
 stationary-point / fixed-point calls, each valid when it is made, in any order, on leaf and composite
-functions alike, the invariant holds at the end**: stored dictionaries are well formed, every triplet
+functions alike, the invariant holds at the end**: stored dictionaries are well formed; every triplet
 recorded on a composite function is the weighted sum of triplets recorded at the same point on its
-terms, and recorded points only mention existing leaf points -/
-theorem run_inv : ∀ (calls : List Call) (w : AW), OInv w → Bounded w → RunOk w calls →
-    OInv (run w calls) ∧ Bounded (run w calls) := by
+terms; recorded points only mention existing leaf points; two triplets of one function at one point
+carry the same value; a differentiable function holds at most one triplet per point -/
+theorem run_inv : ∀ (calls : List Call) (w : AW), Inv w → RunOk w calls → Inv (run w calls) := by
   intro calls
   induction calls with
-  | nil => intro w hi hb _; exact ⟨hi, hb⟩
+  | nil => intro w hi _; exact hi
   | cons c rest ih =>
-    intro w hi hb hv
-    obtain ⟨h1, h2⟩ := step_inv w c hi hb hv.1
-    exact ih (step w c) h1 h2 hv.2
+    intro w hi hv
+    exact ih (step w c) (step_inv w c hi hv.1) hv.2
+
+/-- **one function value per point, however often and through whichever route it is queried**: after any
+valid call sequence, two triplets recorded on the same function at the same point have the same value
+under every valuation of the leaf expressions -/
+theorem one_value_per_point (w : AW) (calls : List Call) (h : Inv w) (hok : RunOk w calls)
+    (f : Nat) (t1 t2 : ATriple) (h1 : t1 ∈ ((run w calls).getF f).pts) (h2 : t2 ∈ ((run w calls).getF f).pts)
+    (hs : SamePt t1.x t2.x) (φ : EKey → ℝ) : vden φ t1.v = vden φ t2.v :=
+  (run_inv calls w h hok).2.2.1 f t1 t2 h1 h2 hs φ
+
+/-- **a differentiable function has one gradient per point**: after any valid call sequence it holds at
+most one triplet per point (and `oracle` returns that triplet's gradient: `leaf_reuse`) -/
+theorem one_gradient_per_point (w : AW) (calls : List Call) (h : Inv w) (hok : RunOk w calls)
+    (f : Nat) (hr : ((run w calls).getF f).reuse = true) :
+    ((run w calls).getF f).pts.Pairwise (fun t1 t2 => ¬ SamePt t1.x t2.x) :=
+  (run_inv calls w h hok).2.2.2 f hr
 
 /-- **a declared stationary point has zero total gradient** (whatever was called before) -/
 theorem stationary_zero_gradient (w : AW) (f : Nat) (hi : OInv w) (hf : f < w.funs.length) :
@@ -228,8 +252,35 @@ theorem demo_runOk : RunOk demoWorld demoCalls := by
     ⟨by decide, by decide, by decide +kernel⟩, ⟨by decide, fun _ => by decide +kernel⟩,
     ⟨by decide, by decide, by decide +kernel⟩, ⟨by decide, fun h => by revert h; decide +kernel⟩, trivial⟩
 
-example : OInv (run demoWorld demoCalls) ∧ Bounded (run demoWorld demoCalls) :=
-  run_inv _ _ demo_inv demo_bounded demo_runOk
+theorem inv_of_fresh (w : AW) (hs : Struct w) (hempty : ∀ f, (w.getF f).pts = []) : Inv w := by
+  refine ⟨oinv_of_fresh w hs hempty, bounded_of_fresh w hempty, ?_, ?_⟩
+  · intro f t1 _ h1; rw [hempty f] at h1; cases h1
+  · intro f _; rw [hempty f]; exact List.Pairwise.nil
+
+theorem demo_Inv : Inv demoWorld := by
+  refine ⟨demo_inv, demo_bounded, ?_, ?_⟩
+  · intro f t1 _ h1
+    have : (demoWorld.getF f).pts = [] := by
+      unfold AW.getF demoWorld
+      simp only [List.getD_eq_getElem?_getD]
+      match f with
+      | 0 => rfl
+      | 1 => rfl
+      | 2 => rfl
+      | (n + 3) => rfl
+    rw [this] at h1; cases h1
+  · intro f _
+    have : (demoWorld.getF f).pts = [] := by
+      unfold AW.getF demoWorld
+      simp only [List.getD_eq_getElem?_getD]
+      match f with
+      | 0 => rfl
+      | 1 => rfl
+      | 2 => rfl
+      | (n + 3) => rfl
+    rw [this]; exact List.Pairwise.nil
+
+example : Inv (run demoWorld demoCalls) := run_inv _ _ demo_Inv demo_runOk
 
 example : ((run demoWorld demoCalls).getF 2).pts.length = 4 := by
   decide +kernel
